@@ -101,3 +101,32 @@ def run_front(drv, scratch, src, name="prog.bloch", direct=False, timeout=20):
     p = scratch.write(name, src if isinstance(src, bytes) else src.encode("latin-1"))
     r = run_proc([drv, "front"] + (["--direct"] if direct else []) + [p], cwd=scratch.dir, timeout=timeout)
     return r
+
+
+DTOR_RE = re.compile(r"^~(\w+)#(\d+)$")
+
+
+def canon_dtor_runs(lines):
+    """Objects that die at the same program point (one scope exit) may be destroyed in any order: within a maximal run of
+    consecutive destructor trace lines `~Class#oid` the per-object chains are kept intact and sorted by object id."""
+    out = []
+    run = []
+
+    def flush():
+        if run:
+            groups = {}
+            for ln, oid in run:
+                groups.setdefault(oid, []).append(ln)
+            for oid in sorted(groups):
+                out.extend(groups[oid])
+            run.clear()
+
+    for ln in lines:
+        m = DTOR_RE.match(ln)
+        if m:
+            run.append((ln, int(m.group(2))))
+        else:
+            flush()
+            out.append(ln)
+    flush()
+    return out
